@@ -465,7 +465,7 @@ verus_unit(
         "thm_ll_enc_is_cstep": dict(own=["C06", "C02"], dep=[], text="layer B = layer A: ll_enc on machine values is the mathematical bookkeeping step cstep (whose abstraction is the exact interval step, lemma_bridge)"),
     },
 )
-for _n in ("2", "3", "4"):
+for _n in ("2",):   # the accepting / surplus-symbol variants (_3, _4) need 16-19 GB of CBMC memory (Vec::resize with float-derived lengths): not registered
     kani("models::lookup_noncontiguous_fast_counts_" + _n, ["C19", "C20", "C10"], kind="bounded", bound="3 probabilities, " + _n + " symbols, P=3",
          fns=[M + "categorical/lookup_noncontiguous.rs::NonContiguousLookupDecoderModel::{from_symbols_and_floating_point_probabilities_fast,from_symbol_table,quantile_function}"],
          text="Ok iff #symbols == #probabilities; every quantile of an accepted model is answered in bounds")
